@@ -377,3 +377,20 @@ pub fn toks_brief(toks: &[Tok]) -> String {
     }
     s
 }
+
+thread_local! {
+    static REF_CACHE: std::cell::RefCell<Option<(Scenario, History)>> = const { std::cell::RefCell::new(None) };
+}
+
+/// Run (or fetch from a one-entry per-thread cache) the reference execution of a scenario.
+pub fn with_reference<T>(sc: &Scenario, f: impl FnOnce(&History) -> T) -> Result<T, String> {
+    REF_CACHE.with(|c| {
+        let mut g = c.borrow_mut();
+        let hit = matches!(&*g, Some((k, _)) if k == sc);
+        if !hit {
+            let h = crate::driver::run(sc)?;
+            *g = Some((sc.clone(), h));
+        }
+        Ok(f(&g.as_ref().unwrap().1))
+    })
+}
